@@ -43,6 +43,22 @@ static int pend[MAXOBJ]; static int npend; /* freed objects already noticed (add
 static hawk_t* hawk; static hawk_rtx_t* rtx; static long baseline;
 static int exited; /* a called function executed `exit`: hawk_rtx_callfun refuses further calls */
 
+/* ---- leaf values held by the host (v-ops; model: lean/HawkModel/GcVal.lean) ---- */
+#define MAXLEAF 8192
+static hawk_val_t* vtab[MAXLEAF]; static int nvtab; static long rtx_base;
+
+static void vdump (void)
+{
+	unsigned long ic = 0, ifr = 0, rc = 0, rfr = 0; hawk_val_chunk_t* c; hawk_val_int_t* pi; hawk_val_flt_t* pf; int i;
+	for (c = rtx->vmgr.ichunk; c; c = c->next) ic++;
+	for (c = rtx->vmgr.rchunk; c; c = c->next) rc++;
+	for (pi = rtx->vmgr.ifree; pi; pi = (hawk_val_int_t*)pi->nde) ifr++;
+	for (pf = rtx->vmgr.rfree; pf; pf = (hawk_val_flt_t*)pf->nde) rfr++;
+	printf(" blk=%ld ic=%lu if=%lu rc=%lu rf=%lu sc=", live_blocks - rtx_base, ic, ifr, rc, rfr);
+	for (i = 0; i < HAWK_COUNTOF(rtx->str_cache_count); i++) printf("%s%lu", i ? "," : "", (unsigned long)rtx->str_cache_count[i]);
+	printf("\n");
+}
+
 static void on_alarm (int sig) { printf("HANG\n"); fflush(stdout); _exit(3); }
 
 static int gen_of (hawk_val_t* v)
@@ -145,6 +161,7 @@ static void close_all (int report)
 	if (rtx)
 	{
 		int i;
+		{ int k; for (k = 0; k < nvtab; k++) if (vtab[k]) { hawk_rtx_refdownval (rtx, vtab[k]); vtab[k] = HAWK_NULL; } nvtab = 0; }
 		if (report)
 		{
 			/* every external holder lets go, most recent object first */
@@ -199,7 +216,7 @@ static int open_all (void)
 	/* plain hawk_rtx_open: no ARGV/ENVIRON maps, the generation lists start empty */
 	rtx = hawk_rtx_open(hawk, 0, HAWK_NULL);
 	if (!rtx) return -1;
-	ntab = 0; exited = 0;
+	ntab = 0; exited = 0; nvtab = 0; rtx_base = live_blocks;
 	return 0;
 }
 
@@ -447,6 +464,31 @@ int main (int argc, char** argv)
 				if (fi == 3) printf("r=%d", newid); else printf("r=ok");
 				dump ();
 			}
+		}
+		else if (!strcmp(op, "vint") || !strcmp(op, "vflt") || (!strcmp(op, "vstr") && sscanf(line, "%*s %ld", &x) == 1))
+		{
+			hawk_val_t* v;
+			if (nvtab >= MAXLEAF) { printf("bad-op\n"); }
+			else
+			{
+				if (op[1] == 'i') v = hawk_rtx_makeintval(rtx, ((hawk_int_t)1 << 62) + nvtab);
+				else if (op[1] == 'f') v = hawk_rtx_makefltval(rtx, (hawk_flt_t)nvtab + 0.5);
+				else
+				{
+					static char sb[4096]; long n = x < 1 ? 1 : (x > 4000 ? 4000 : x);
+					memset (sb, 'x', n);
+					v = hawk_rtx_makestrvalwithbchars(rtx, sb, (hawk_oow_t)n);
+				}
+				if (!v) { printf("alloc-failed\n"); fflush(stdout); return 2; }
+				hawk_rtx_refupval (rtx, v);
+				vtab[nvtab++] = v;
+				printf("r=%d", nvtab - 1); vdump ();
+			}
+		}
+		else if (!strcmp(op, "vrel") && sscanf(line, "%*s %ld", &x) == 1)
+		{
+			if (x < 0 || x >= nvtab || !vtab[x]) { printf("r=ERR"); vdump (); }
+			else { hawk_rtx_refdownval (rtx, vtab[x]); vtab[x] = HAWK_NULL; printf("r=ok"); vdump (); }
 		}
 		else if (!strcmp(op, "gc") && sscanf(line, "%*s %ld", &x) == 1)
 		{
